@@ -70,7 +70,7 @@ pub fn pp1(
     let mut g = zn.from_int(Uint::from(seed));
     let mut p_prev: u32 = 1;
     let mut gpows = vec![zn.one()];
-    let two = zn.add(&zn.one(), &zn.one());
+    let mut two = zn.add(&zn.one(), &zn.one());
     loop {
         for &p in block {
             p_prev = p as u32;
@@ -106,6 +106,8 @@ pub fn pp1(
             let gint = zn.to_int(g);
             zn = ZmodN::new(nred);
             g = zn.from_int(gint % nred);
+            // `two` is a residue of the ring that was just replaced
+            two = zn.add(&zn.one(), &zn.one());
         }
         if p_prev > b1 as u32 {
             break;
